@@ -400,6 +400,65 @@ def doCache (s : Sess) (ws : List String) : Option (Sess × List String) :=
     some ({ s with heap := h }, cacheState h ++ ["end"])
   | _ => none
 
+
+/-! ## loading an arbitrary forest: `id:own+own(child,child)` separated by `;` -/
+
+def takeDigits (s : List Char) : List Char × List Char := takeWhileC Char.isDigit s
+
+mutual
+def parseTreeTxt : Nat → List Char → Option (Tree × List Char)
+  | 0, _ => none
+  | fuel + 1, s => do
+    let (ds, rest) := takeDigits s
+    let i ← digitsToNat? ds
+    match rest with
+    | ':' :: rest => do
+      let (own, rest) ← parseOwnTxt fuel rest
+      match rest with
+      | '(' :: rest => do
+        let (ks, rest) ← parseKidsTxt fuel rest
+        match rest with
+        | ')' :: rest => some (.node i own ks, rest)
+        | _ => none
+      | _ => some (.node i own [], rest)
+    | _ => none
+def parseKidsTxt : Nat → List Char → Option (List Tree × List Char)
+  | 0, _ => none
+  | fuel + 1, s => do
+    let (t, rest) ← parseTreeTxt fuel s
+    match rest with
+    | ',' :: rest => do
+      let (ts, rest) ← parseKidsTxt fuel rest
+      some (t :: ts, rest)
+    | _ => some ([t], rest)
+def parseOwnTxt : Nat → List Char → Option (List Nat × List Char)
+  | 0, _ => none
+  | fuel + 1, s => do
+    let (ds, rest) := takeDigits s
+    let p ← digitsToNat? ds
+    match rest with
+    | '+' :: rest => do
+      let (ps, rest) ← parseOwnTxt fuel rest
+      some (p :: ps, rest)
+    | _ => some ([p], rest)
+end
+
+def parseForestTxt (s : String) : Option (List Tree) :=
+  if s == "-" || s == "" then some [] else
+  (s.splitOn ";").mapM fun w =>
+    match parseTreeTxt (2 * w.length + 2) w.toList with
+    | some (t, []) => some t
+    | _ => none
+
+def doSetForest (m : List (String × String)) : Option (Sess × List String) := do
+  let n ← (← look m "n").toNat?
+  let fb ← ((look m "fb").getD "0").toNat?
+  let vals ← parseVals (← look m "vals")
+  let f ← parseForestTxt (← look m "f")
+  if vals.length != n then none else
+  let s1 : Sess := { n := n, fb := fb, vals := vals.toArray, forest := f }
+  some (s1, obsBlock s1)
+
 def simple (s : Sess) (r : Option (List String)) (name : String) : Sess × List String :=
   match r with
   | some out => (s, out)
@@ -416,6 +475,10 @@ def handle (s : Sess) (line : String) : Sess × List String :=
     match doPrune s (kvs rest) with
     | some (s', out) => (s', out)
     | none => (s, ["bad-op prune", "end"])
+  | "setforest" :: rest =>
+    match doSetForest (kvs rest) with
+    | some (s', out) => (s', out)
+    | none => (s, ["bad-op setforest", "end"])
   | "pruneorig" :: rest =>
     match doPruneOrig s (kvs rest) with
     | some (s', out) => (s', out)
